@@ -822,6 +822,16 @@ class Evaluator:
                 return Const(None)
             if name == "finalize":
                 return App("hash", (recv.args[0], mk_cat(recv.args[1:]) if len(recv.args) > 1 else Const(b"")), e)
+        # pathlib one-shot file access: p.read_bytes() is open(p, 'rb').read(), p.write_bytes(x) is open(p, 'wb').write(x)
+        if name in ("read_bytes", "read_text") and not args and not kwargs and not isinstance(recv, Const):
+            mode = Const("rb" if name == "read_bytes" else "r")
+            st.effects.append(App("eff:open", (recv, mode), e))
+            return App("filebytes" if name == "read_bytes" else "filetext", (recv,), e)
+        if name in ("write_bytes", "write_text") and len(args) == 1 and not kwargs and not isinstance(recv, Const):
+            mode = Const("wb" if name == "write_bytes" else "w")
+            st.effects.append(App("eff:open", (recv, mode), e))
+            st.effects.append(App("eff:write", (App("open", (recv, mode), e), args[0]), e))
+            return App("len", (args[0],), e)
         # bytearray accumulator: append(n) / extend(b) grow the content
         if isinstance(recv, App) and recv.op == "bytearray" and name in ("append", "extend") and len(args) == 1 and isinstance(e.func.value, ast.Name):
             x = args[0]
